@@ -493,6 +493,21 @@ example : reobsForwarded cfgBsc (some 103) (messageEvents cfgBsc.contract topic1
     = [mkMsg 4 ev1 1700000000] := by decide
 example : reobsForwarded cfgBsc (some 102) (messageEvents cfgBsc.contract topic1 cfgBsc.chainId (some receipt1) false (some 1700000000)) = [] := by decide
 
+/-- **A re-observed message carries the time of the block its receipt points to in THIS request.** `bt` is what the node answers
+for `receipt.BlockHash` during the request; nothing resolved by an earlier request (for the same transaction, the same height, the
+same anything) enters.  So after a reorg that re-mines the transaction at the same height in a block with another time, the
+message handed over has the new block's time — the one every other guardian signs. -/
+theorem c10_reobserved_timestamp_is_block_time (cfg : Cfg) (topic : Bytes) (bnAns : Option Nat) (rc : Option Receipt)
+    (rcErr : Bool) (bt : Option Nat) (m : Msg)
+    (hm : m ∈ reobsForwarded cfg bnAns (messageEvents cfg.contract topic cfg.chainId rc rcErr bt)) : bt = some m.ts := by
+  obtain ⟨r, t, n, bn, l, ev, _, _, _, hbt, _, _, _, _, _, _, hmk, _, _⟩ := c10_reobserve_checks cfg topic bnAns rc rcErr bt m hm
+  rw [hbt, hmk]; rfl
+
+-- the same transaction at the same height in two blocks (other hash, other time): each request yields its own block's time
+example : (reobsForwarded cfgBsc (some 103) (messageEvents cfgBsc.contract topic1 cfgBsc.chainId (some receipt1) false (some 1700000000))).map (·.ts) = [1700000000] ∧
+    (reobsForwarded cfgBsc (some 103) (messageEvents cfgBsc.contract topic1 cfgBsc.chainId (some { receipt1 with bh := [0xb2] }) false (some 1700000012))).map (·.ts) = [1700000012] := by
+  decide
+
 private theorem evtLoop_no_panic (contract topic : Bytes) (chainId t : Nat) (logs : List (Option RLog))
     (h : ∀ l, some l ∈ logs → l.addr = contract → l.topics ≠ []) :
     ∀ acc, evtLoop contract topic chainId t logs acc ≠ .panic := by
